@@ -101,7 +101,9 @@ class Cluster:
             return jid + "\n"
         return f"Submitted batch job {jid}\n"
 
-    _SQ = {"PD": "PENDING", "R": "RUNNING", "CG": "COMPLETING", "CF": "CONFIGURING", "S": "SUSPENDED"}
+    # what squeue shows (jobs the controller still holds): compact code (%t) -> long name (%T)
+    _SQ = {"PD": "PENDING", "R": "RUNNING", "CG": "COMPLETING", "CF": "CONFIGURING", "S": "SUSPENDED", "ST": "STOPPED", "RD": "RESV_DEL_HOLD", "RF": "REQUEUE_FED",
+           "RH": "REQUEUE_HOLD", "RQ": "REQUEUED", "RS": "RESIZING", "SI": "SIGNALING", "SO": "STAGE_OUT", "SE": "SPECIAL_EXIT"}
 
     def cmd_squeue(self, args, _):
         fmt = self._opt(args, ("--format",), ("-o",)) or "%.18i %.9P %.8j %.8u %.2t %.10M %.6D %R"
@@ -127,8 +129,11 @@ class Cluster:
             out.append(line)
         return "".join(l + "\n" for l in out)
 
-    _LONG = {"PD": "PENDING", "R": "RUNNING", "CG": "COMPLETING", "CF": "CONFIGURING", "S": "SUSPENDED", "CD": "COMPLETED", "F": "FAILED", "CA": "CANCELLED by 1234",
-             "TO": "TIMEOUT", "OOM": "OUT_OF_MEMORY", "NF": "NODE_FAIL"}
+    # what the accounting database says for the same jobs: it only knows its own, smaller set of state names - a job in a queue-only state shows there as running,
+    # pending, suspended, requeued or resizing
+    _LONG = {"PD": "PENDING", "R": "RUNNING", "CG": "RUNNING", "CF": "RUNNING", "S": "SUSPENDED", "CD": "COMPLETED", "F": "FAILED", "CA": "CANCELLED by 1234",
+             "TO": "TIMEOUT", "OOM": "OUT_OF_MEMORY", "NF": "NODE_FAIL", "ST": "SUSPENDED", "RD": "PENDING", "RF": "PENDING", "RH": "PENDING", "RQ": "REQUEUED", "RS": "RESIZING",
+             "SI": "RUNNING", "SO": "RUNNING", "SE": "PENDING"}
 
     def cmd_sacct(self, args, _):
         fmt = self._opt(args, ("--format",), ("-o",)) or "jobid,jobname,partition,account,alloccpus,state,exitcode"
@@ -357,6 +362,9 @@ def _history(kind):
     cl = Cluster(kind)
     if kind == "slurm":
         rows = [("21", None), ("22", "R"), ("23", "F"), ("24", "PD"), ("25", "CD"), ("26", "CA"), ("27", "TO")]
+        # ... and one job in every further state the live queue can show (all of them alive): whichever way the backend asks for states (%t codes, %T names),
+        # each must come out as submitted or running
+        rows += [(str(31 + i), c_) for i, c_ in enumerate(("CF", "CG", "S", "ST", "RD", "RF", "RH", "RQ", "RS", "SI", "SO"))]
         for jid, code in rows:
             if code is None:
                 cl.purged.add(jid)
